@@ -27,6 +27,36 @@ __all__ = [
 PARALLELIZE = True
 N_PARALLEL_PROCESSES = os.cpu_count()
 
+if os.environ.get("ACCELFORGE_VERIF") == "1":
+    # Verification hook (guarded, add-only): with ACCELFORGE_VERIF_SCHEDULE_SEED set,
+    # jobs collected with return_as="generator_unordered" are submitted in a seeded
+    # permuted order and their results are delivered in another seeded permuted order,
+    # so that checks can force adversarial completion orders instead of relying on the
+    # OS to produce them.
+    _VerifJoblibParallel = Parallel
+
+    class Parallel(_VerifJoblibParallel):  # noqa: F811
+        def __call__(self, iterable):
+            seed = os.environ.get("ACCELFORGE_VERIF_SCHEDULE_SEED")
+            if not seed or self.return_as != "generator_unordered":
+                return super().__call__(iterable)
+            import random
+
+            rng = random.Random(int(seed))
+            submitted = list(iterable)
+            rng.shuffle(submitted)
+            results = list(super().__call__(submitted))
+            mode = int(seed) % 3
+            if mode == 0:
+                results.reverse()
+            elif mode == 1 and results:
+                k = rng.randrange(len(results))
+                results = results[k:] + results[:k]
+            else:
+                rng.shuffle(results)
+            return iter(results)
+
+
 
 _lambdify_cache = {}
 
